@@ -162,17 +162,27 @@ def main():
     out = []
     try:
         mod, client = rt.rest_client(pl['module'], pl['service_snake'], pl['service'], srv.hostport)
-        for s in pl['sessions']:
+        for si, s in enumerate(pl['sessions']):
             m = pl['methods'][s['mid']]
             events, raw = [], []
             state['events'], state['raw'] = events, raw
+            # every other session reuses ONE request object, edited in place between the calls (a caller may do that;
+            # each call must still transcode the object's current content)
+            reuse, shared = si % 2 == 1, None
             for c in s['calls']:
                 val = {l: list(c['req'].get(l, [])) for l in leaves}
                 events.append(dict(ev='call', req={l: v for l, v in val.items() if v}))
                 state['reply'] = c['reply']
                 try:
                     data = pool.encode(m['req'], request_dict(leaves, val))
-                    request = getattr(mod, m['name'] + 'Request').deserialize(data)
+                    cls = getattr(mod, m['name'] + 'Request')
+                    if reuse and shared is not None:
+                        request = shared
+                        cls.pb(request).Clear()
+                        cls.pb(request).MergeFromString(data)
+                    else:
+                        request = cls.deserialize(data)
+                        shared = request
                     resp = getattr(client, m['snake'])(request=request)
                     rtype, res = project_result(pool, m, resp)
                     events.append(dict(ev='return', rtype=rtype, result=res))
